@@ -173,7 +173,7 @@ def from_script(s):
     fields = []
     for f in s['fields']:
         t = f['t']; v = f['v']
-        if t in ('str', 'raw'):
+        if t in ('str', 'raw') or t.startswith('#'):
             items = [bytes.fromhex(x) for x in v]
         elif t in ('pt', 'rc'):
             items = [tuple(x) for x in v]
